@@ -201,8 +201,22 @@ def scaled_calls(dadi, gd, sd, ts, c, theta, resolve, scale_graph):
     b = real_import(dadi, resolve(scale_graph(gd, c)), sd, [t * c for t in ts], None, theta)[0]
     if isinstance(a, str) or isinstance(b, str):
         return None if a == b else 'one run raises: %r vs %r' % (a if isinstance(a, str) else 'ok', b if isinstance(b, str) else 'ok')
-    if len(a) != len(b): return 'number of calls %d vs %d' % (len(a), len(b))
     def base(n): return n.split('_sampled_')[0]
+    def canon(calls):
+        # the order of the children of a split is the iteration order of a set of names inside the demes library (it depends on the hash of
+        # the names, which contain the scaled sample time): compare up to that order — reorderings dropped, integrations by deme name
+        out = []
+        for x in calls:
+            if x[0] == 'R': continue
+            if x[0] == 'S': out.append(('S', x[1], x[2], sorted(x[3], key=base)))
+            elif x[0] == 'X': out.append(('X',))
+            elif x[0] == 'I':
+                o = sorted(range(len(x[3])), key=lambda i: base(x[3][i]))
+                out.append(('I', x[1], x[2], [x[3][i] for i in o], [x[4][i] for i in o], [[x[5][i][j] for j in o] for i in o], [x[6][i] for i in o]) + tuple(x[7:]))
+            else: out.append(x)
+        return out
+    a = canon(a); b = canon(b)
+    if len(a) != len(b): return 'number of calls %d vs %d' % (len(a), len(b))
     for x, y in zip(a, b):
         if x[0] != y[0]: return 'call %s vs %s' % (x[0], y[0])
         if x[0] == 'P':
@@ -288,6 +302,55 @@ def frozen_dt_oracle(chk, ctx, rng, n):
                      'changes phi by %.2e' % (d, small * 1.5, small * 40.0, float(np.max(np.abs(a - b)))), dict(kind='frozen-dt', d=d, nus=nus, T=T))
         chk.stat('frozen-dt:identical' if np.array_equal(a, b) else 'frozen-dt:different')
         chk.stat('frozen-dt:smaller-step-differs' if not np.array_equal(a, c_) else 'frozen-dt:smaller-step-same')
+
+def slice_rows_oracle(chk, ctx, rng, n):
+    """L3 on the code alone (C16_slice_plan): for every interval (x, y) of the sliced graph the importer finds the live demes, the sizes and
+    the migration rates it finds for the original graph on (x + t, y + t)"""
+    dadi = ctx['dadi']; D = dadi.Demes.Demes
+    from .c16 import resolve
+    for it in range(n):
+        h = S.History(rng, max_live=4, small_Ne=True, cut_prob=0.8, fn_probs=(0.25, 0.4, 0.35))
+        gd = h.graph_dict(); g = resolve(gd)
+        for t in G.slice_times(h, rng, k=2):
+            try:
+                g2 = dadi.Demes.DemesUtil.slice(g, t)
+            except Exception:
+                continue
+            alive = [d.name for d in g2.demes if d.end_time == 0]
+            if not alive: continue
+            ev, pres = D._get_demographic_events(g2, g2.discrete_demographic_events(), alive)
+            inp = dict(kind='slice-rows', graph=common.jsonable(gd), t=t)
+            chk.l3(('slice-rows', len(pres), len(g2.demes)))
+            why = None
+            marks = sorted({float(v) for d in g.demes for v in [d.start_time] + [e.end_time for e in d.epochs] if v != INF}
+                           | {float(v) for m in g.migrations for v in (m.start_time, m.end_time) if v != INF} | {float(p.time) for p in g.pulses})
+            def snap(v):
+                # x + t in floating point: the time of the original graph it stands for (the importer compares times exactly)
+                near_ = [m for m in marks if abs(m - v) <= 1e-9 * max(1.0, abs(v))]
+                return near_[0] if near_ else v
+            for iv, live in pres.items():
+                x, y = float(iv[0]), float(iv[1])
+                ivo = (snap(x + t) if x != INF else INF, snap(y + t))
+                # live demes of the original on the moved interval, in the importer's order (descending start time, graph order)
+                eps = 1e-9 * max(1.0, ivo[1])
+                orig = [d for d in g.demes if (d.start_time == INF or d.start_time >= ivo[0] - eps) and d.end_time <= ivo[1] + eps]
+                orig = [d.name for d in sorted(orig, key=lambda d: -d.start_time if d.start_time != INF else -INF)]
+                if list(live) != orig: why = 'live demes on %r: %r, on the moved interval of the original: %r' % (iv, list(live), orig); break
+                for d in live:
+                    a = D._sizes_at_time(g2, d, iv); b = D._sizes_at_time(g, d, ivo)
+                    if not (near(float(a[0]), float(b[0]), 1e-9) and near(float(a[1]), float(b[1]), 1e-9)) or (a[2] != b[2] and not near(float(b[0]), float(b[1]), 1e-12)):
+                        why = 'sizes of %s on %r: %r, original on the moved interval: %r' % (d, iv, a, b); break
+                if why: break
+                for a_ in live:
+                    for b_ in live:
+                        if a_ == b_: continue
+                        if float(D._migration_rate_in_interval(g2, a_, b_, iv)) != float(D._migration_rate_in_interval(g, a_, b_, ivo)):
+                            why = 'migration rate %s -> %s on %r' % (a_, b_, iv); break
+                    if why: break
+                if why: break
+            if why is not None:
+                chk.fail('slice:rows:mismatch', 'graph sliced at %g: %s' % (t, why), inp)
+            chk.stat('slice-rows:graphs')
 
 def ne_threaded(dadi, g0, sd, ts, Ne, c, theta):
     """recorded calls with the reference size Ne and Ne / c: same calls, T x c, M / c, every nu x c (root, frozen branches, size functions)"""
@@ -541,6 +604,22 @@ def replay_case(chk, ctx, inp):
         smp = [tuple(x) for x in inp['samples']]
         why = scaled_calls(dadi, inp['graph'], [a for a, _ in smp], [t for _, t in smp], inp['c'], inp['theta'], resolve, scale_graph)
         if why is not None: chk.fail('scale:frozen-branch:mismatch', 'replay: ' + why, common.jsonable(inp))
+        return
+    if inp['kind'] == 'slice-rows':
+        chk.l3(('slice-rows-replay',))
+        class _R:
+            def __init__(self, ts): self.ts = ts
+        g = resolve(inp['graph']); t = inp['t']
+        D = dadi.Demes.Demes
+        g2 = dadi.Demes.DemesUtil.slice(g, t)
+        alive = [d.name for d in g2.demes if d.end_time == 0]
+        ev, pres = D._get_demographic_events(g2, g2.discrete_demographic_events(), alive)
+        for iv, live in pres.items():
+            x, y = float(iv[0]), float(iv[1]); ivo = (x + t if x != INF else INF, y + t)
+            for d in live:
+                a = D._sizes_at_time(g2, d, iv); b = D._sizes_at_time(g, d, ivo)
+                if not (near(float(a[0]), float(b[0]), 1e-9) and near(float(a[1]), float(b[1]), 1e-9)):
+                    chk.fail('slice:rows:mismatch', 'replay: sizes of %s on %r: %r vs %r' % (d, iv, a, b), common.jsonable(inp)); return
         return
     if inp['kind'] == 'frozen-dt':
         chk.l3(('frozen-dt-replay',)); return
